@@ -40,7 +40,7 @@ RULE = ("Deterministic exhaustive enumeration: every sequence of mode-changing c
         "define, attribute, rename, blocking put/get collective and independent in every form, nonblocking post, wait, wait_all, "
         "cancel, sync, flush, fill, buffer attach/detach, inquiry; valid arguments and the single argument errors that take part in "
         "the documented precedence).  Also: every unit alone in a fresh file after every prefix of depth <= 1 (2), the collective "
-        "units on k=2 ranks to depth 2 (3), everything again under PNETCDF_SAFE_MODE=1 to depth 2 (3), and Hypothesis-drawn longer "
+        "units on k=2 ranks to depth 3, everything again under PNETCDF_SAFE_MODE=1 to depth 3 (4; collective units on k=2 one less), and Hypothesis-drawn longer "
         "histories (depth+1..depth+9).  Oracle = reference automaton pv/modes.py (documented codes only, otherwise unconstrained), "
         "mode check of both library layers after every prefix step, no-effect observation (dumpall, nreqs, buffer size, put_size, "
         "file bytes) + mode witnesses after every rejected call.  Non-trivial = a case whose prefix performs >= 2 successful mode "
@@ -53,8 +53,8 @@ ASSUMPTIONS = ["single node, local POSIX file system (file snapshots are coheren
                "ncmpio driver (no burst buffer, no subfiling)"]
 
 DEPTH = {"quick": 3, "thorough": 5}           # exhaustive enumeration, k=1, all units
-DEPTH_K2 = {"quick": 2, "thorough": 3}        # collective units on 2 ranks
-DEPTH_SAFE = {"quick": 2, "thorough": 3}      # all units again with PNETCDF_SAFE_MODE=1 (k=1), collective units (k=2) one level less
+DEPTH_K2 = {"quick": 3, "thorough": 3}        # collective units on 2 ranks
+DEPTH_SAFE = {"quick": 3, "thorough": 4}      # all units again with PNETCDF_SAFE_MODE=1 (k=1), collective units (k=2) one level less
 ISOLATION_DEPTH = {"quick": 1, "thorough": 2}  # every unit alone in a fresh file
 N_HYP = {"quick": 10, "thorough": 80}         # per worker, random longer histories
 
@@ -687,13 +687,14 @@ def run_script(ctx, case):
 def run_case(ctx, case):
     """replays one (start, prefix, probe set, k) case; on a crash/hang of a batched case the units are re-run one
     by one so that the problem names the culprit"""
+    ctx.no_verdict = False
     try:
         probs, facts, info, b = run_script(ctx, case)
     except SetupFailed as e:
-        ctx.notes.append("setup failed (no verdict): %s case=%s" % (e, case))
-        ctx.stats["harness_exceptions"] += 1
-        return []
+        return no_verdict(ctx, "setup failed: %s case=%s" % (e, case))
     except PoolError as e:
+        if e.kind == "start":
+            return no_verdict(ctx, "pool did not start: %s" % e.stderr_tail[-300:])
         sel = case.get("probes", "all")
         names = [u.name for u in UNITS] if sel == "all" else [u.name for u in UNITS if u.coll] if sel == "coll" else list(sel)
         if len(names) <= 1:
@@ -704,8 +705,10 @@ def run_case(ctx, case):
             sub["probes"] = [] if nm is None else [nm]
             try:
                 p = runner.guarded(lambda c, cs: run_script(c, cs)[0])(ctx, sub)
-            except SetupFailed:
-                p = []
+            except SetupFailed as e2:
+                return no_verdict(ctx, "setup failed: %s case=%s" % (e2, sub))
+            if any(x.get("kind") == "start" for x in p):
+                return no_verdict(ctx, "pool did not start")
             for x in p:
                 x["minimal_case"] = sub
                 x["msg"] = "[unit %s alone] %s" % (nm, x["msg"])
@@ -735,6 +738,14 @@ def run_case(ctx, case):
             sub["probes"] = [u]
             p["minimal_case"] = sub
     return probs
+
+
+def no_verdict(ctx, why):
+    """the harness could not do its job for this case (pool cannot start, setup statement failed): never a violation"""
+    ctx.no_verdict = True
+    ctx.notes.append("no verdict: " + why[:600])
+    ctx.stats["harness_exceptions"] += 1
+    return []
 
 
 def case_script(case):
@@ -840,6 +851,8 @@ def campaign(ctx):
             ctx.notes.append("harness exception: %s case=%s" % (traceback.format_exc()[-1200:], case))
             ctx.stats["harness_exceptions"] += 1
             continue
+        if getattr(ctx, "no_verdict", False):
+            continue
         ctx.evaluations += 1
         ctx.stats["cases_" + part] += 1
         real = []
@@ -870,7 +883,8 @@ def campaign(ctx):
 def coverage_extra(stats, tier):
     want = n_enum(tier)
     got = stats.get("cases_enum", 0)
-    out = {"exhaustive": bool(got == want and stats.get("harness_exceptions", 0) == 0),
+    # a case is only counted when it was evaluated to a verdict
+    out = {"exhaustive": bool(got == want),
            "enumeration": {"depth": int(os.environ.get("C14_DEPTH", DEPTH[tier])), "prefix_cases_expected": want, "prefix_cases_evaluated": got,
                            "isolated_unit_cases": stats.get("cases_isolated", 0), "k2_prefix_cases": stats.get("cases_enum_k2", 0),
                            "safe_mode_prefix_cases": stats.get("cases_enum_safe", 0), "safe_mode_k2_prefix_cases": stats.get("cases_enum_safe_k2", 0),
